@@ -339,6 +339,18 @@ class Rewriter:
         self.hit('W6c', n)
         return text
 
+    # ---- W6e: `for (IDX, &VAR) in X.iter().enumerate() {` -> range loop with an indexed read -------------
+    def w6e(self, text):
+        m = mask(text)
+        n = 0
+        for mm in reversed(list(re.finditer(r'\bfor\s+\(\s*(\w+)\s*,\s*&\s*(\w+)\s*\)\s+in\s+([^{;]+?)\.iter\(\)\s*\.enumerate\(\)\s*\{', m))):
+            idx, var = mm.group(1), mm.group(2)
+            recv = text[mm.start(3):mm.end(3)].strip()
+            text = text[:mm.start()] + 'for %s in iter__: 0..%s.len() {\n            let %s = %s[%s];' % (idx, recv, var, recv, idx) + text[mm.end():]
+            n += 1
+        self.hit('W6e', n)
+        return text
+
     # ---- W6p: Iterator::position over `.iter()` -> index loop (std definition of `position`) ---------
     def w6p(self, text):
         m = mask(text)
